@@ -2234,19 +2234,62 @@ func ivLowerBound(v ssa.Value) (int64, bool) {
 	if !ok || !isIntegral(phi.Type()) {
 		return 0, false
 	}
-	lo, have := int64(0), false
-	for _, e := range phi.Edges {
-		if k, ok := constInt64(e); ok {
-			if !have || k < lo {
-				lo = k
-			}
-			have = true
-			continue
-		}
-		if s, ok := stepOf(e, phi); ok && s > 0 {
-			continue
-		}
+	lo, ok := lowerBoundOf(phi, map[*ssa.Phi]bool{}, 0)
+	if !ok || lo == lbNeutral {
 		return 0, false
 	}
-	return lo, have
+	return lo, true
+}
+
+const lbNeutral = int64(1) << 62
+
+// lowerBoundOf: a constant, a value plus a non-negative constant, or a merge of
+// such values; a merge that is met again on the way (a counter carried around
+// nested loops) adds nothing new. Overflow is not considered.
+func lowerBoundOf(v ssa.Value, stack map[*ssa.Phi]bool, depth int) (int64, bool) {
+	v = stripConv(v)
+	if depth > 12 {
+		return 0, false
+	}
+	if k, ok := constInt64(v); ok {
+		return k, true
+	}
+	switch x := v.(type) {
+	case *ssa.BinOp:
+		if x.Op == token.ADD {
+			for _, pr := range [][2]ssa.Value{{x.X, x.Y}, {x.Y, x.X}} {
+				if c, ok := constInt64(pr[1]); ok && c >= 0 {
+					lo, ok := lowerBoundOf(pr[0], stack, depth+1)
+					if !ok {
+						return 0, false
+					}
+					if lo == lbNeutral {
+						return lbNeutral, true
+					}
+					return lo + c, true
+				}
+			}
+		}
+	case *ssa.Phi:
+		if !isIntegral(x.Type()) {
+			return 0, false
+		}
+		if stack[x] {
+			return lbNeutral, true
+		}
+		stack[x] = true
+		defer delete(stack, x)
+		lo := lbNeutral
+		for _, e := range x.Edges {
+			l, ok := lowerBoundOf(e, stack, depth+1)
+			if !ok {
+				return 0, false
+			}
+			if l < lo {
+				lo = l
+			}
+		}
+		return lo, true
+	}
+	return 0, false
 }
